@@ -47,6 +47,163 @@ def helper_calls(f, fn):
     return out
 
 
+# ---- symbolic interpretation ---------------------------------------------------------------------------------------------
+# Value::eq and Value::hash (with every helper they call) are interpreted on values whose payloads are symbolic atoms.  What
+# is compared and what is fed to the hasher is recorded together with the normal form it is wrapped in (OrderedFloat,
+# serde_json::to_string, none); coherence is: per variant, eq and hash use the same normal form on the same payload, floats
+# never the plain one, the discriminant is hashed first, and eq is the diagonal relation.
+
+def _sym_engine(f):
+    from ..interp import Interp, Opaque, Sym, Unsupported, Var
+    it = Interp(f)
+    it.free_opaque = True
+    it.max_depth = 10
+    rec = {"cmp": [], "hash": []}
+
+    def nf(v):
+        if isinstance(v, Var) and v.d == "ordered_float::OrderedFloat" and len(v.fields) == 1:
+            return ("OrderedFloat", v.fields[0])
+        if isinstance(v, Var) and v.d.startswith("nf:"):
+            return (v.d[3:], v.fields[0])
+        if isinstance(v, str):
+            return ("const", v)
+        if isinstance(v, tuple) and len(v) == 2 and v[0] == "__some":
+            a, b = nf(v[1])
+            return (a, ("__some", b))
+        return ("plain", v)
+
+    def unknown(it_, e, env, depth):
+        callee = H.callee(e) or ""
+        decl = e.get("callee") or ""
+        name = e.get("name") or decl.rsplit("::", 1)[-1]
+        vals = ([it_.ev(e["recv"], env, depth)] if e.get("k") == "mcall" else []) + [it_.ev(a, env, depth) for a in e.get("args") or []]
+        if (decl == "core::cmp::PartialEq::eq" or callee.endswith("PartialEq>::eq")) and len(vals) == 2:
+            rec["cmp"].append((nf(vals[0]), nf(vals[1])))
+            return vals[0] == vals[1]
+        if (decl == "core::cmp::PartialEq::ne" or callee.endswith("PartialEq>::ne")) and len(vals) == 2:
+            rec["cmp"].append((nf(vals[0]), nf(vals[1])))
+            return vals[0] != vals[1]
+        if decl == "core::hash::Hash::hash" and len(vals) == 2:
+            rec["hash"].append(nf(vals[0]))
+            return ()
+        if decl == "core::mem::discriminant" and vals and isinstance(vals[0], Var):
+            return Var("nf:discriminant", [vals[0].d])
+        if (callee or decl).startswith("serde_json::") and (callee or decl).endswith("to_string") and vals:
+            return ("Ok", Var("nf:serde_json::to_string", [vals[0]]))
+        if name in ("as_slice", "as_ref", "deref", "clone", "iter", "as_str", "to_vec") and vals and (isinstance(vals[0], (list, Opaque))):
+            return vals[0]
+        raise Unsupported("call %s" % (callee or decl or name))
+    it.unknown_call = unknown
+    it.builtins = {"core::mem::discriminant": lambda it_, a: Var("nf:discriminant", [a[0].d if isinstance(a[0], Var) else repr(a[0])]),
+                   "core::intrinsics::discriminant_value": lambda it_, a: (a[0].d if isinstance(a[0], Var) else repr(a[0]))}
+    # Eq / Hash of a payload type (std, third-party, or derived in the crate) is one atomic step in its plain form
+    it.opaque_call = lambda e: (e.get("callee") or "") in ("core::cmp::PartialEq::eq", "core::cmp::PartialEq::ne", "core::hash::Hash::hash")
+
+    def on_cmp(l, r):
+        if isinstance(l, (int, bool)) and isinstance(r, (int, bool)):
+            return          # lengths and flags, not payload
+        rec["cmp"].append((nf(l), nf(r)))
+    it.cmp_hook = on_cmp
+    return it, rec
+
+
+def _payloads(f, vdef, fields):
+    """symbolic payloads of one variant: (label, field values)"""
+    from ..interp import Sym, Var
+    t = f.ty(fields[-1]["ty"])
+    lead = [Var("crate::value::ArrayType::Int")] * (len(fields) - 1)
+
+    def some(x):
+        return ("__some", x)
+    if "pgvector" in t:
+        return [("null", lead + [None]), ("a", lead + [some([Sym("a0"), Sym("a1")])]), ("b", lead + [some([Sym("a0"), Sym("b1")])]), ("short", lead + [some([Sym("a0")])])]
+    if "Vec<crate::value::Value>" in t:
+        el = lambda s_: Var(V + "::Int", [some(Sym(s_))])
+        return [("null", lead + [None]), ("a", lead + [some([el("a")])]), ("b", lead + [some([el("b")])])]
+    return [("null", lead + [None]), ("a", lead + [some(Sym("a"))]), ("b", lead + [some(Sym("b"))])]
+
+
+def check_symbolic(run, f, cfg, variants, eqn, hn):
+    """True when eq / hash were decided by interpretation"""
+    from ..interp import Unsupported, Diverged, Var
+    a = f.adts[V]
+    eqfn, hfn = f.fns[eqn], f.fns[hn]
+    rows = {}
+    try:
+        vals = {}
+        for vv in a["variants"]:
+            vals[vv["def"]] = [(lab, Var(vv["def"], fl)) for lab, fl in _payloads(f, vv["def"], vv["fields"])]
+        # hash traces
+        htrace = {}
+        for d, lst in vals.items():
+            for lab, v in lst:
+                it, rec = _sym_engine(f)
+                it.call_fn(hn, [v, None if False else __import__("sqv.interp", fromlist=["Opaque"]).Opaque("state")])
+                htrace[(d, lab)] = rec["hash"]
+        # eq on every pair of variants (payload a / null) and every pair of payloads of one variant
+        eqres = {}
+        eqcmp = {}
+        for d1, l1 in vals.items():
+            for d2, l2 in vals.items():
+                for lab1, v1 in l1:
+                    for lab2, v2 in l2:
+                        if d1 != d2 and (lab1 not in ("null", "a") or lab2 not in ("null", "a")):
+                            continue
+                        it, rec = _sym_engine(f)
+                        r = it.call_fn(eqn, [v1, v2])
+                        if not isinstance(r, bool):
+                            raise Unsupported("eq returns %r" % (r,))
+                        eqres[(d1, lab1, d2, lab2)] = r
+                        if d1 == d2 and lab1 == lab2 == "a":
+                            eqcmp[d1] = rec["cmp"]
+    except (Unsupported, Diverged) as e:
+        run.notes.append("C18 eq/hash outside the interpreter's fragment (%s): decided by the shape rules" % e)
+        return False
+    nrows = len(eqres)
+    for vv in a["variants"]:
+        d = vv["def"]
+        short = d.rsplit("::", 1)[-1]
+        labs = [lab for lab, _ in vals[d]]
+        # same variant: equal exactly when the payloads are the same
+        bad = ["%s vs %s -> %s" % (x, y, eqres[(d, x, d, y)]) for x in labs for y in labs if eqres[(d, x, d, y)] != (x == y)]
+        run.ob("C18.R1", "eq:diagonal:%s" % short, not bad,
+               "eq on two %s values (interpreted on symbolic payloads: NULL, a, b) holds exactly when the payloads are the same%s" % (short, "" if not bad else " - NOT: " + "; ".join(bad)),
+               sp=eqfn["sp"], cfg=cfg)
+        cross = ["%s(%s) == %s(%s)" % (short, x, d2.rsplit("::", 1)[-1], y) for (d1, x, d2, y), r in eqres.items() if d1 == d and d2 != d and r] + \
+                ["%s(%s) == %s(%s)" % (d1.rsplit("::", 1)[-1], x, short, y) for (d1, x, d2, y), r in eqres.items() if d2 == d and d1 != d and r]
+        run.ob("C18.R1", "eq:covered:%s" % short, not cross, "a %s value never equals a value of another variant (both orders, NULL and non-NULL)%s" % (
+            short, "" if not cross else " - NOT: " + "; ".join(cross[:3])), sp=eqfn["sp"], cfg=cfg)
+        # pairing of normal forms
+        ht = htrace[(d, "a")]
+        hn0 = htrace[(d, "null")]
+        disc_first = bool(ht) and ht[0] == ("discriminant", d) and bool(hn0) and hn0[0] == ("discriminant", d)
+        run.ob("C18.R4", "hash:covered:%s" % short, disc_first and len(ht) >= 2 and len(hn0) >= 2,
+               "hash of a %s value feeds the discriminant first and then its payload (NULL and non-NULL)" % short, sp=hfn["sp"], cfg=cfg, detail={"some": repr(ht), "null": repr(hn0)})
+        eq_nf = sorted(set((l[0], repr(l[1])) for l, r in eqcmp.get(d, [])))
+        def leaves(x):
+            # a payload hashed element by element (vector) counts as its elements
+            return x
+        h_nf = sorted(set((n_, repr(x_)) for n_, x_ in ht[1:]))
+        floaty = any(t_ in f.ty(vv["fields"][-1]["ty"]) for t_ in ("f32", "f64", "pgvector"))
+        plain_float = floaty and (any(n_ == "plain" for n_, _ in eq_nf) or any(n_ == "plain" for n_, _ in h_nf))
+        ok = bool(eq_nf) and eq_nf == h_nf and not plain_float
+        if not ok and eq_nf and h_nf and not plain_float:
+            # element-wise on one side, whole on the other (vector / array): same normal form over the same atoms
+            ok = set(n_ for n_, _ in eq_nf) == set(n_ for n_, _ in h_nf) and \
+                sorted(set(__import__("re").findall(r"<[a-z0-9]+>", " ".join(x for _, x in eq_nf)))) == sorted(set(__import__("re").findall(r"<[a-z0-9]+>", " ".join(x for _, x in h_nf))))
+        run.ob("C18.R2", "pair:%s" % short, ok,
+               "variant %s: eq compares and hash feeds the same payload in the same normal form (%s)%s" % (
+                   short, ", ".join(sorted(set(n_ for n_, _ in eq_nf))) or "?", "" if ok else " - NOT: eq uses %s, hash uses %s%s" % (eq_nf, h_nf, "; a float payload in its plain form" if plain_float else "")),
+               sp=eqfn["sp"], cfg=cfg)
+    okd = all(t and t[0][0] == "discriminant" for t in htrace.values())
+    run.ob("C18.R4", "hash:discriminant-first", okd, "every hash trace starts with mem::discriminant(self) (%d traces)" % len(htrace), sp=hfn["sp"], cfg=cfg)
+    # symmetric
+    asym = [k for k, r in eqres.items() if eqres.get((k[2], k[3], k[0], k[1])) != r]
+    run.ob("C18.R1", "eq:symmetric", not asym, "eq is symmetric on all %d interpreted pairs" % nrows, sp=eqfn["sp"], cfg=cfg)
+    run.floor("C18.R1", "eq-rows", nrows, 3000, cfg)
+    return True
+
+
 def check(run):
     cfg = "all"
     f = run.facts(cfg)
@@ -63,6 +220,9 @@ def check(run):
     eqimpl = [i for i in f.impls if i.get("trait") == "core::cmp::PartialEq" and i.get("self_adt") == V][0]
     run.ob("C18.R1", "manual-impl", not eqimpl.get("derived"), "PartialEq for Value is the hand-written impl of mod hashable_value", sp=eqimpl["sp"], cfg=cfg, trivial=True)
     eqfn, hfn = f.fns[eqn], f.fns[hn]
+    if check_symbolic(run, f, cfg, variants, eqn, hn):
+        check_rest(run, f, cfg, variants, eqn, hn)
+        return
     # ---- eq: one top-level match on (self, other)
     body = H.peel(eqfn["hir"])
     ms = [n for n in walk(eqfn["hir"]) if n.get("k") == "match" and n.get("src") == "Normal"]
@@ -231,6 +391,11 @@ def check(run):
             cc, hc = helper_calls(f, f.fns[cv]), helper_calls(f, f.fns[hv])
             run.ob("C18.R2", "vector:pair", helpers.get("cmp_f32") in cc and helpers.get("hash_f32") in hc and any(x.endswith("::len") for x in cc),
                    "cmp_vector compares lengths and elements through cmp_f32; hash_vector hashes elements through hash_f32", sp=f.fns[cv]["sp"], cfg=cfg)
+    check_rest(run, f, cfg, variants, eqn, hn)
+
+
+def check_rest(run, f, cfg, variants, eqn, hn):
+    helpers = {k.rsplit("::", 1)[-1]: k for k in f.fns if k.startswith("crate::value::hashable_value::") and f.fns[k].get("kind") == "fn"}
     # ---- R3 raw float comparison / bit hashing
     n = 0
     for name in [eqn, hn] + sorted(helpers.values()):
